@@ -7,6 +7,8 @@ const Z: AtomicU32 = AtomicU32::new(0);
 pub static CLONES: [AtomicU32; NIDS] = [Z; NIDS];
 pub static DROPS: [AtomicU32; NIDS] = [Z; NIDS];
 pub static MADE: [AtomicU32; NIDS] = [Z; NIDS];
+/// drops of values that are not clones (generation 0): the configured / lent value itself
+pub static DROPS0: [AtomicU32; NIDS] = [Z; NIDS];
 
 pub const DEFAULT_ID: u32 = 9000;
 pub const REAL_ID: u32 = 7000;
@@ -17,6 +19,7 @@ pub fn reset_counts() {
         CLONES[i].store(0, SeqCst);
         DROPS[i].store(0, SeqCst);
         MADE[i].store(0, SeqCst);
+        DROPS0[i].store(0, SeqCst);
     }
 }
 pub fn reset_id(id: u32) {
@@ -24,6 +27,10 @@ pub fn reset_id(id: u32) {
     CLONES[i].store(0, SeqCst);
     DROPS[i].store(0, SeqCst);
     MADE[i].store(0, SeqCst);
+    DROPS0[i].store(0, SeqCst);
+}
+pub fn drops0(id: u32) -> u32 {
+    DROPS0[id as usize % NIDS].load(SeqCst)
 }
 pub fn counts(id: u32) -> (u32, u32, u32) {
     let i = id as usize % NIDS;
@@ -47,14 +54,25 @@ impl Default for Val {
         Val::new(DEFAULT_ID)
     }
 }
+thread_local! {
+    /// when set to an id, the next Clone of a value with that id panics (a user panic)
+    pub static CLONE_PANIC: std::cell::Cell<u32> = const { std::cell::Cell::new(0) };
+}
 impl Clone for Val {
     fn clone(&self) -> Self {
+        if CLONE_PANIC.with(|c| c.get()) == self.id && self.id != 0 {
+            CLONE_PANIC.with(|c| c.set(0));
+            std::panic::panic_any(UserPanic(self.id));
+        }
         CLONES[self.id as usize % NIDS].fetch_add(1, SeqCst);
         Val { id: self.id, gen: self.gen + 1 }
     }
 }
 impl Drop for Val {
     fn drop(&mut self) {
+        if self.gen == 0 {
+            DROPS0[self.id as usize % NIDS].fetch_add(1, SeqCst);
+        }
         DROPS[self.id as usize % NIDS].fetch_add(1, SeqCst);
     }
 }
@@ -72,6 +90,7 @@ impl Tok {
 }
 impl Drop for Tok {
     fn drop(&mut self) {
+        DROPS0[self.id as usize % NIDS].fetch_add(1, SeqCst);
         DROPS[self.id as usize % NIDS].fetch_add(1, SeqCst);
     }
 }
